@@ -468,50 +468,162 @@ def lossless_restore_rule(chk, src):
 
 # ------------------------------------------------------------------------------------------ spill of large site tensors to disk
 def spill_rule(chk, src):
-    """MatrixProduct keeps site tensors above a size limit as .npy files: writer, reader and cleanup must agree on where the file of (object, site) lives,
-    the reader must rebuild the same Matrix (dtype, sigmaqn of that site), and what is saved is the tensor itself"""
+    """MatrixProduct keeps site tensors above a size limit as .npy files.  Abstract run of __setitem__ / _array2mt / __getitem__ / __del__ from source (helpers included)
+    on two live objects over a model file system (directories and files as a dictionary, os.path / os / shutil / np.save / np.load as operations on it): every (object,
+    site) gets a file of its own holding that tensor; reading a site gives back a Matrix with the same content, the object's dtype and the labels of that site; replacing a
+    site replaces what is read back; deleting one object removes its files and nothing of the other; below the size limit nothing is written."""
+    from ..syminterp import SymInterp, Sym, Blob, OpenSym, SymRaise
+    from .chain_rules import class_resolver
+    resolve = class_resolver(src, {"MatrixProduct": MP})
     a2 = src.func(MP, "MatrixProduct._array2mt")
     gi = src.func(MP, "MatrixProduct.__getitem__")
     si = src.func(MP, "MatrixProduct.__setitem__")
     de = src.func(MP, "MatrixProduct.__del__")
 
-    def dirs(fi):
-        return sorted({unparse(st.value).replace(" ", "") for st in ast.walk(fi.node) if isinstance(st, ast.Assign) and isinstance(st.value, ast.Call)
-                       and unparse(st.value.func) == "os.path.join" and "id(self)" in unparse(st.value)})
-    d1, d2 = dirs(a2), dirs(de)
-    chk.ob("spill-protocol", "writer and cleanup use the same per-object directory", d1 == d2 and len(d1) == 1 and "id(self)" in d1[0] and "dump_matrix_dir" in d1[0], a2.where,
-           {"_array2mt": d1, "__del__": d2}, "os.path.join(self.compress_config.dump_matrix_dir, str(id(self))) in both", line=a2.node.lineno,
-           detail="two live objects must never share a spill directory (id(self)), and the directory removed when an object dies must be its own")
-    idx = a2.params()[2]
-    names = [unparse(st.value).replace(" ", "") for st in ast.walk(a2.node) if isinstance(st, ast.Assign) and unparse(st.targets[0]) == "dump_name"]
-    dirname = [unparse(st.targets[0]) for st in ast.walk(a2.node) if isinstance(st, ast.Assign) and isinstance(st.value, ast.Call) and unparse(st.value.func) == "os.path.join" and "id(self)" in unparse(st.value)]
-    dn = ast.parse(names[0], mode="eval").body if len(names) == 1 else None
-    used = {x.id for x in ast.walk(dn) if isinstance(x, ast.Name)} - {"os", "str"} if dn is not None else set()
-    fvals = [x.value for x in ast.walk(dn) if isinstance(x, ast.FormattedValue)] if dn is not None else []
-    injective = bool(fvals) and all(isinstance(v, ast.Name) and v.id == idx for v in fvals) or (dn is not None and any(isinstance(x, ast.Call) and unparse(x) == f"str({idx})" for x in ast.walk(dn)))
-    chk.ob("spill-protocol", "one file per site inside that directory", len(names) == 1 and used == set(dirname[:1]) | {idx} and injective, a2.where, names, f"os.path.join(dir_with_id, f'{{{idx}}}.npy')", line=a2.node.lineno,
-           detail="the file name must be a function of the site index only: two sites sharing a file silently overwrite each other")
-    saves = [c for c in ast.walk(a2.node) if isinstance(c, ast.Call) and unparse(c.func) == "np.save"]
-    arr_defs = [unparse(st.value).replace(" ", "") for st in ast.walk(a2.node) if isinstance(st, ast.Assign) and unparse(st.targets[0]) == "array"]
-    ok = len(saves) == 1 and [unparse(x) for x in saves[0].args] == ["dump_name", "array"] and set(arr_defs) <= {"mt.array", "np.ascontiguousarray(array)"} and "mt.array" in arr_defs
-    chk.ob("spill-protocol", "the file holds the tensor itself (at most made contiguous)", ok, a2.where, {"save": [unparse(c) for c in saves], "array": arr_defs}, "np.save(dump_name, mt.array)", line=a2.node.lineno)
-    rets = [unparse(r.value) for r in ast.walk(a2.node) if isinstance(r, ast.Return)]
-    chk.ob("spill-protocol", "a spilled tensor is represented by its file name", sorted(rets) == ["dump_name", "mt"], a2.where, rets, ["dump_name", "mt"], line=a2.node.lineno)
-    # reader
-    item = gi.params()[1]
-    loads = [unparse(st.value).replace(" ", "") for st in ast.walk(gi.node) if isinstance(st, ast.Assign) and "np.load" in unparse(st.value)]
-    sq = [unparse(st.value).replace(" ", "") for st in ast.walk(gi.node) if isinstance(st, ast.Assign) and unparse(st.targets[0]).endswith(".sigmaqn")]
-    okr = len(loads) == 1 and loads[0].startswith("Matrix(np.load(") and "dtype=self.dtype" in loads[0] and sq == [f"self._get_sigmaqn({item})"]
-    chk.ob("spill-protocol", "reader rebuilds the Matrix with the object's dtype and the site's sigmaqn", okr, gi.where, {"load": loads, "sigmaqn": sq},
-           {"load": "Matrix(np.load(<stored name>), dtype=self.dtype)", "sigmaqn": f"self._get_sigmaqn({item})"}, line=gi.node.lineno,
-           detail="a reloaded site tensor must be indistinguishable from one kept in memory (same dtype conversion as _array2mt, quantum numbers of the same site)")
-    rm = [unparse(c).replace(" ", "") for c in ast.walk(si.node) if isinstance(c, ast.Call) and unparse(c.func) == "os.remove"]
-    st_ = [unparse(x).replace(" ", "") for x in ast.walk(si.node) if isinstance(x, ast.Assign) and isinstance(x.targets[0], ast.Subscript)]
-    key = si.params()[1]
-    chk.ob("spill-protocol", "replacing a site converts the new tensor through _array2mt with the same index", st_ == [f"self._mp[{key}]=new_mt"] and
-           any(unparse(x.value).replace(" ", "") == f"self._array2mt({si.params()[2]},{key})" for x in ast.walk(si.node) if isinstance(x, ast.Assign)), si.where, {"store": st_, "remove": rm},
-           f"new_mt = self._array2mt(array, {key}); self._mp[{key}] = new_mt", line=si.node.lineno)
+    class Arr(Sym):
+        """array content token"""
+        def __init__(self, content, nbytes=1000, contiguous=True):
+            super().__init__(f"array<{content}>")
+            self.content, self.nbytes = content, nbytes
+            self.flags = Sym("flags", c_contiguous=contiguous, f_contiguous=False)
+            self.shape = (2, 3, 5)
 
+    class MT(Sym):
+        def __init__(self, array, dtype=None):
+            super().__init__("Matrix")
+            a = array.array if isinstance(array, MT) else array
+            if not isinstance(a, Arr):
+                raise TypeError(f"Matrix built from {array!r}")
+            self.array, self.dtype, self.sigmaqn = a, dtype, None
+            self.pdim, self.shape = [3], a.shape
+
+        def astype(self, dtype):
+            return MT(self.array, dtype)
+
+    def world(limit):
+        fs = {"dirs": {"/dumps"}, "files": {}}
+
+        def join(*parts):
+            return "/".join(str(x) for x in parts)
+        osx = Sym("os", path=Sym("path", join=join, exists=lambda p_: p_ in fs["dirs"] or p_ in fs["files"]), mkdir=lambda p_: fs["dirs"].add(p_), makedirs=lambda p_, **k: fs["dirs"].add(p_),
+                  remove=lambda p_: fs["files"].pop(p_), getpid=lambda: 4711)
+
+        def rmtree(p_, *a, **k):
+            fs["dirs"].discard(p_)
+            for f in [f for f in fs["files"] if f.startswith(p_ + "/")]:
+                del fs["files"][f]
+
+        def save(name, arr, *a, **k):
+            if not isinstance(name, str) or "/" not in name or name.rsplit("/", 1)[0] not in fs["dirs"]:
+                raise SymRaise(f"np.save to {name!r}: no such directory")
+            fs["files"][name if name.endswith(".npy") else name + ".npy"] = arr
+
+        def load(name, *a, **k):
+            return fs["files"][name]
+        npx = OpenSym("np", make=lambda t: Blob(t), save=save, load=load, ascontiguousarray=lambda a_: Arr(a_.content, a_.nbytes, True))
+
+        def mk(name, dtype):
+            me = Sym(name)
+            me._cls = "MatrixProduct"
+            me.dtype = dtype
+            me._mp = [None, None, None]
+            me.pbond_list = [3, 3, 3]
+            me.compress_config = Sym("compress_config", dump_matrix_size=limit, dump_matrix_dir="/dumps")
+            me._get_sigmaqn = lambda idx, me=me: f"sigmaqn({name}, {idx})"
+            return me
+        builtins = {"np": npx, "os": osx, "shutil": Sym("shutil", rmtree=rmtree), "logger": Blob("logger"), "Matrix": MT, "isinstance": lambda x, t: isinstance(x, t), "str": str, "list": list,
+                    "slice": slice, "int": int, "tuple": tuple}
+        it = SymInterp(src, resolve, builtins)
+        it.max_depth = 8
+        it.check_asserts = True
+        return fs, it, mk
+    # ---- above the limit
+    fs, it, mk = world(limit=10)
+    A, B = mk("A", "dtype-of-A"), mk("B", "dtype-of-B")
+    probs = []
+    try:
+        it.call_function(si, [A, 0, Arr("A0")])
+        it.call_function(si, [A, 1, MT(Arr("A1", contiguous=False), "other dtype")])
+        it.call_function(si, [B, 0, Arr("B0")])
+        it.call_function(si, [B, 1, Arr("B1")])
+    except (SymRaise, KeyError, TypeError) as e:
+        probs.append(f"writer: {type(e).__name__}: {e}")
+    files = dict(fs["files"])
+    held = {("A", 0): A._mp[0], ("A", 1): A._mp[1], ("B", 0): B._mp[0], ("B", 1): B._mp[1]}
+    ok_w = not probs and all(isinstance(v, str) for v in held.values()) and len(set(held.values())) == 4 and all(v in files for v in held.values()) and \
+        all(getattr(files[held[(o, k)]], "content", None) == f"{o}{k}" for (o, k) in held) and len(files) == 4
+    chk.ob("spill-protocol", "every (object, site) above the limit gets a file of its own that holds that tensor", ok_w, a2.where,
+           probs or {f"{o}[{k}]": (v if isinstance(v, str) else type(v).__name__, getattr(files.get(v) if isinstance(v, str) else None, "content", None)) for (o, k), v in held.items()},
+           "four distinct files with the four tensors; the site list holds the file names", line=a2.node.lineno,
+           detail="the file name must depend on the object (two live objects never share a file) and on the site index (two sites sharing a file silently overwrite each other), and the file must hold the tensor itself")
+    # ---- reader
+    rd = []
+    if ok_w:
+        for me, o in ((A, "A"), (B, "B")):
+            for k in (0, 1):
+                try:
+                    m = it.call_function(gi, [me, k])
+                except (SymRaise, KeyError, TypeError) as e:
+                    rd.append(f"{o}[{k}]: {type(e).__name__}: {e}")
+                    continue
+                if not isinstance(m, MT) or m.array.content != f"{o}{k}" or m.dtype != me.dtype or m.sigmaqn != f"sigmaqn({o}, {k})":
+                    rd.append(f"{o}[{k}] reads back content {getattr(getattr(m, 'array', None), 'content', m)!r}, dtype {getattr(m, 'dtype', None)!r}, labels {getattr(m, 'sigmaqn', None)!r}")
+    chk.ob("spill-protocol", "reading a spilled site gives the same tensor with the object's dtype and the site's labels", ok_w and not rd, gi.where, rd[:3] or ("not run: writer failed" if not ok_w else "equal"),
+           "content of that (object, site), self.dtype, _get_sigmaqn(site)", line=gi.node.lineno,
+           detail="a reloaded site tensor must be indistinguishable from one kept in memory (same dtype conversion as _array2mt, quantum numbers of the same site)")
+    # ---- replace
+    rp = []
+    if ok_w:
+        try:
+            it.call_function(si, [A, 0, Arr("A0'")])
+            m = it.call_function(gi, [A, 0])
+            if getattr(getattr(m, "array", None), "content", None) != "A0'":
+                rp.append(f"after replacing A[0] the site reads back {getattr(getattr(m, 'array', None), 'content', m)!r}")
+            m1 = it.call_function(gi, [A, 1])
+            if getattr(getattr(m1, "array", None), "content", None) != "A1":
+                rp.append("replacing A[0] changed what A[1] reads back")
+            stale = [f for f in fs["files"] if f not in (A._mp[0], A._mp[1], B._mp[0], B._mp[1])]
+            if stale:
+                rp.append(f"files no site refers to: {stale}")
+        except (SymRaise, KeyError, TypeError) as e:
+            rp.append(f"{type(e).__name__}: {e}")
+    chk.ob("spill-protocol", "replacing a spilled site replaces what is read back and leaves no stale file", ok_w and not rp, si.where, rp[:3] or ("not run" if not ok_w else "replaced"), "new tensor read back", line=si.node.lineno)
+    # ---- cleanup
+    cl = []
+    if ok_w:
+        try:
+            it.call_function(de, [A])
+        except (SymRaise, KeyError, TypeError) as e:
+            cl.append(f"{type(e).__name__}: {e}")
+        left = sorted(fs["files"])
+        if any(isinstance(v, str) and v in fs["files"] for v in A._mp):
+            cl.append(f"files of the deleted object remain: {[v for v in A._mp if isinstance(v, str) and v in fs['files']]}")
+        if not all(isinstance(v, str) and v in fs["files"] for v in B._mp[:2]):
+            cl.append(f"deleting A removed files of B (left: {left})")
+        else:
+            try:
+                m = it.call_function(gi, [B, 1])
+                if getattr(getattr(m, "array", None), "content", None) != "B1":
+                    cl.append("B[1] no longer reads back its tensor")
+            except (SymRaise, KeyError, TypeError) as e:
+                cl.append(f"B[1] after deleting A: {type(e).__name__}: {e}")
+    chk.ob("spill-protocol", "deleting an object removes its own files and nothing else", ok_w and not cl, de.where, cl[:3] or ("not run" if not ok_w else "own files only"), "own files only", line=de.node.lineno,
+           detail="two live objects must never share a spill directory, and the directory removed when an object dies must be its own")
+    # ---- below the limit
+    fs2, it2, mk2 = world(limit=10 ** 9)
+    C = mk2("C", "dtype-of-C")
+    lo = []
+    try:
+        it2.call_function(si, [C, 0, Arr("C0")])
+        m = it2.call_function(gi, [C, 0])
+        if fs2["files"] or not isinstance(C._mp[0], MT):
+            lo.append(f"files {sorted(fs2['files'])}, site list holds {type(C._mp[0]).__name__}")
+        if not isinstance(m, MT) or m.array.content != "C0" or m.dtype != "dtype-of-C" or m.sigmaqn != "sigmaqn(C, 0)":
+            lo.append(f"in-memory site reads back {getattr(getattr(m, 'array', None), 'content', m)!r}, {getattr(m, 'dtype', None)!r}, {getattr(m, 'sigmaqn', None)!r}")
+    except (SymRaise, KeyError, TypeError) as e:
+        lo.append(f"{type(e).__name__}: {e}")
+    chk.ob("spill-protocol", "below the size limit the tensor stays in memory with the same dtype conversion and labels", not lo, a2.where, lo[:3] or "in memory", "in memory, same Matrix as the reader rebuilds", line=a2.node.lineno)
+    # a spilled matrix and an in-memory one must not differ in dtype / labels: the same (dtype, labels) in both worlds is shown by the two obligations above
 
 
 # ------------------------------------------------------------------------------------------ round trip of tree states (abstract run of dump, then load)
@@ -702,7 +814,7 @@ def run(chk):
     tree_round_trip_rule(chk, src)
     chk.rule("chain-round-trip", "abstract run of the chain writer followed by the chain reader (2 and 11 sites; MatrixProduct and Mps)", 4)
     chain_round_trip_rule(chk, src)
-    chk.rule("spill-protocol", "disk spill of large site tensors: writer / reader / cleanup agree, content and metadata preserved", 6)
+    chk.rule("spill-protocol", "disk spill of large site tensors (abstract run on two objects over a model file system): one file per (object, site), round trip of content, dtype and labels, replacement, cleanup of own files only, nothing written below the limit", 5)
     spill_rule(chk, src)
     chk.rule("dump-completes", "normal completion of dump_dict leaves the primary result file complete", 1)
 
